@@ -214,3 +214,12 @@ def timeSplit (c : TsCfg Val) (inner : Pipe) : Stage := .wrap (timeSplitSp c) (t
 
 end D
 end Rx
+
+namespace Rx
+
+/-- rxsci/data/sort.py: `to_list → sorted(key=, reverse=) → to_deque(extend)`: a stable sort by key;
+`reverse=True` keeps the original order of equal keys (Python semantics). -/
+def sortBy {α κ} (key : α → κ) (lt : κ → κ → Bool) (reverse : Bool) (xs : List α) : List α :=
+  xs.mergeSort (fun a b => if reverse then !(lt (key a) (key b)) else !(lt (key b) (key a)))
+
+end Rx
